@@ -32,6 +32,10 @@ LOCAL_PAIRS = [("query", "_query", False), ("variables", "_variables", False), (
                ("data", "_data", False), ("query", "__query", False), ("_query", "__query", False)]
 # response keys that are aliases of one field / of __typename (control: distinct keys, distinct Python names)
 ALIAS_CASES = [("__typename", "kind", "__typename"), ("kind", "sort", "__typename"), ("x", "y", "x"), ("first", "second", "x")]
+# operations only: the result class of an operation is str_to_pascal_case(name) while its module / method is the
+# snake-cased name.  First group: class names merge while the modules stay apart (finding F18-operation-class-merge);
+# second group: the modules merge (refused: duplicate file names); third group: controls
+OP_PAIRS = [("aB", "AB"), ("iD", "ID"), ("xML", "XML"), ("getX", "get_x"), ("a_b", "a_B"), ("aB", "aC"), ("getUser", "listUsers")]
 ENUM_PAIRS = [("class", "class_"), ("None", "None_"), ("RED", "GREEN"), ("_INTERNAL", "INTERNAL"), ("mro", "mro_"), ("_order_", "ok"),
               ("fooBar", "foo_bar"), ("A1", "a1")]
 
@@ -94,6 +98,8 @@ def run(ctx):
             cases.append((scope, a, b, snake))
     for a, b, snake in LOCAL_PAIRS:
         cases.append(("variables", a, b, snake))
+    for a, b in OP_PAIRS:
+        cases.append(("operations", a, b, True))
     for a, b in ENUM_PAIRS:
         cases.append(("enum", a, b, False))
     for a, b, field in ALIAS_CASES:
@@ -109,6 +115,8 @@ def run(ctx):
         sn = True if scope == "operations" else snake
         cmds += [[Sym("process"), [sn, trim, res], a], [Sym("process"), [sn, trim, res], b]]
     outs = model.batch("C18", cmds, jobs=1)
+    opnames = sorted({x for c in cases if c[0] == "operations" for x in c[1:3]})
+    op_class = dict(zip(opnames, model.batch("C18", [[Sym("pascal"), n] for n in opnames], jobs=1)))
     evals = sorted({x for p in ENUM_PAIRS for x in p})
     enum_model = dict(zip(evals, model.batch("C18", [[Sym("enum_member"), v] for v in evals], jobs=1)))
     pred = {}
@@ -122,6 +130,8 @@ def run(ctx):
             pa, pb = outs[i], outs[i + 1]
             i += 2
         pred[(scope, a, b, snake)] = (pa == pb, pa, pb)
+    # operations whose modules differ but whose result classes (Model/Names.v pascal) coincide
+    class_merge = {c for c in cases if c[0] == "operations" and not pred[c][0] and op_class[c[1]] == op_class[c[2]]}
     with workers.Scratch() as sc:
         gens = scen.generate([build(*c) for c in cases], sc)
         for case, g in zip(cases, gens):
@@ -156,6 +166,12 @@ def run(ctx):
             if collide:
                 run.finding("F18-silent-merge", what, rep)
                 run.dist("c18_scopes_outcome", "collision:silently-merged")
+            elif case in class_merge:
+                rep["result_classes"] = [op_class[a], op_class[b]]
+                run.finding("F18-operation-class-merge",
+                            f"operations {a!r} and {b!r} (modules {pa!r}, {pb!r}) share the result class "
+                            f"{op_class[a]!r}: generation succeeded; {detail}", rep)
+                run.dist("c18_scopes_outcome", "class-collision:silently-merged")
             else:
                 run.violation(what, rep)
 
@@ -180,7 +196,15 @@ def both_usable(g, scope, a, b, pa, pb):
             return v == {a: 1, b: 2} or v == {a: 2, b: 1}, f"sent variables {v}"
         if scope == "operations":
             ms = [m for m in ld["methods"] if m not in ("execute", "get_data")]
-            return len(ms) >= 2, f"client methods {sorted(ms)}"
+            if len(ms) < 2 or pa not in ms or pb not in ms:
+                return False, f"client methods {sorted(ms)}"
+            # each method must return the model of ITS operation: the response of `a` selects f, that of `b` selects g
+            for meth, key, val in ((pa, "f", 1), (pb, "g", 2)):
+                r = g.call(method=meth, args={}, response={key: val})
+                if r.get("exc") or (r.get("result") or {}).get("dump") != {key: val}:
+                    return False, (f"method {meth} given the response {{{key!r}: {val}}} returned "
+                                   f"{r.get('result')!r} {r.get('exc') or ''}".strip())
+            return True, f"client methods {sorted(ms)}"
     finally:
         g.stop()
     return False, "unknown scope"
